@@ -1824,7 +1824,7 @@ impl JsObject {
                         if math::fract(*n) == 0.0 && *n >= 0.0 && *n <= u32::MAX as f64 {
                             PropertyKey::Index(*n as u32)
                         } else {
-                            PropertyKey::String(JsString::from(ToString::to_string(n)))
+                            PropertyKey::String(JsString::from(number_to_string(*n)))
                         };
                     self.properties.insert(
                         reverse_key,
@@ -2755,7 +2755,7 @@ impl EnumData {
 
             // Reverse mapping entry for numeric values (value string -> name)
             if let JsValue::Number(n) = &member.value {
-                entries.push((n.to_string(), JsValue::String(member.name.cheap_clone())));
+                entries.push((number_to_string(*n), JsValue::String(member.name.cheap_clone())));
             }
         }
 
